@@ -30,7 +30,7 @@ def check(c: Check):
     # every clause is run even when an earlier one meets something it does not understand: what the others find is
     # reported (exit 1) together with the ANALYSIS-ERROR of the first clause that failed
     first_error = None
-    for clause in (clause_a, clause_b, clause_b2, clause_c, clause_d, clause_e, clause_g, clause_i, clause_h, clause_f,
+    for clause in (clause_a, clause_b, clause_b2, clause_c, clause_d, clause_e, clause_g, clause_i, clause_h, clause_f, clause_j,
                    lambda c_: sweep_records(c_, 'C14-rec', ['exactly_lib.type_val_prims.string_source',
                                                              'exactly_lib.impls.types.string_source'], floor=2)):
         try:
@@ -896,3 +896,31 @@ def _arms(e):
         yield from _arms(e.orelse)
     else:
         yield e
+
+
+# ---------------------------------------------------------------- j
+def clause_j(c: Check):
+    """TS the cached file of a text (`as_file`) is remembered only once it is COMPLETE: the attribute that caches the
+    path is assigned None (nothing cached) or the result of the call that makes the whole file - never a path that
+    is still to be written.  A path remembered before the write has finished survives a failure half way through:
+    the next `as_file` hands out the truncated file while as_str / as_lines give the whole text."""
+    ix = c.ix
+    n = 0
+    for name in _text_value_modules(ix):
+        if '_as_file_path' not in ix.text(name):
+            continue
+        m = ix.module(name)
+        for x in ast.walk(m.tree):
+            if isinstance(x, ast.Assign):
+                for tg in x.targets:
+                    if isinstance(tg, ast.Attribute) and tg.attr == '_as_file_path':
+                        n += 1
+                        v = x.value
+                        f = m.enclosing_func(x)
+                        ok = (isinstance(v, ast.Constant) and v.value is None) or (
+                            isinstance(v, ast.Call) and isinstance(v.func, ast.Attribute) and v.func.attr == '_to_file')
+                        c.expect(ok, 'C14-j', 'cached-file-is-complete/%s' % (f.key if f else name),
+                                 'the cached path of the text as a file is set to `%s` - not to the result of the call that '
+                                 'writes the whole file: a failure while writing leaves a truncated file that later '
+                                 'readers of as_file get' % unparse(v), '%s:%d' % (m.relpath, x.lineno))
+    c.floor('C14-j', 'assignments of the cached file path', n, 3)
